@@ -109,6 +109,10 @@ class Sim:
 
     def wait_until(self, pred, timeout, poll=0.05):
         """Root: advance virtual time until pred() holds at a quiescent instant; False on timeout."""
+        cfg = self.k.stall_cfg
+        if cfg:
+            # injected thread stalls may delay whatever is awaited: allow for the largest possible total
+            timeout += cfg.get("max", 0) * max(cfg.get("durs", [0.0]))
         end = self.k.now + timeout
         self.k.settle()
         while not pred():
